@@ -11,7 +11,7 @@ IMPL = "harness.props.c06_impl"
 TABLE_DEPS = ["lazyseq_state_shape", "lazyseq_restore_on_error", "lazyseq_seq_shape",
               "lazyseq_sequence_shape", "lazyseq_lock_keeps_gil"]
 TAGGED = True
-SHARD = 1000
+SHARD = 500
 HARD_TIMEOUT = 90
 WORKER_ENV = {"VERIF_CASE_SOFT_TIMEOUT": "40"}
 RULE = ("single-threaded: random consumption histories (first / rest / next / seq / count / nth / bounded "
@@ -415,7 +415,7 @@ def cases(tier, rng):
             yield mt_free(rng, rng.choice([2, 2, 3]), tick=rng.random() < 0.4, itseq=rng.random() < 0.2,
                           throw=rng.random() < 0.2)
     # ---- single-threaded histories ---------------------------------------------------------
-    n = 12000 if thorough else 800
+    n = 6000 if thorough else 600
     for _ in range(n):
         yield st_random(rng)
     for _ in range(n // 2):
